@@ -22,6 +22,7 @@ ASSUMPTIONS = [
     "relative tolerance 1e-12 for scaled values and for composition",
     "file round trip uses the library's own reader; resolution 1 ms for osu/Quaver, 1/96 beat at the slowest tempo (>= 1 ms) for StepMania/BMS",
     "an unset osu preview point (-1) is not exercised: the start states set it",
+    "coincidence probe: equal source times must give exactly equal rated times across hits, sample events and the preview point (any uniform scaling is a function of the time), in memory and after osu write+read; rates {1.1, 0.9, 1.5, 4/3} x 56 times x 3 preview points",
 ]
 TECHNIQUE = "explicit-state BFS over short histories ending in rate() on real charts/mapsets of five games, compared with a plain-Python twin; composition and write/read-back oracles"
 LEVEL_TEXT = (
@@ -30,7 +31,9 @@ LEVEL_TEXT = (
     "rated by every r in {0.5, 1, 1.5, 2, 4/3}: offsets and lengths divided, bpm multiplied, every other column and metadata field "
     "unchanged, original snapshot-identical, r=1 identity, rate(a).rate(b) = rate(ab) for all 25 (thorough) / 8 (quick) pairs, osu "
     "preview point and sample events and StepMania sample window and file offset scaled; each rated chart of osu, Quaver, StepMania, BMS "
-    "written and read back: same notes, columns, lengths and tempo-change times."
+    "written and read back: same notes, columns, lengths and tempo-change times. Coincidence probe (osu): a hit, a sample event and the "
+    "preview point on one source time stay on one time after rate() and after write+read, for rates {1.1, 0.9, 1.5, 4/3} on 56 times "
+    "including quotients one rounding error away from a whole millisecond."
 )
 LEVEL_NOTE = "Bounded: five rates, charts of <=5 notes and 2 tempo points on a quarter-beat grid; 'all r>0' is not covered."
 
@@ -126,9 +129,53 @@ def explore(root, tier, ctx):
         check_rate(kind, g, v, pre, r, None, ctx)
     for a, b in pairs(tier):
         check_rate(kind, g, v, pre, a, b, ctx)
+    if (kind, g, v, pre) == ("map", "osu", "plain", None):
+        for r in COINCIDE_RATES:
+            for p in COINCIDE_PREVIEWS:
+                check_coincide(r, p, ctx)
+
+
+# Uniform scaling maps equal times to equal times: a hit, a sample event and the preview point that share a time in the source
+# share one in the rated chart and in the file written from it (whatever rounding the scaling uses, it is the same for all of them).
+# Times are odd small integers plus values whose quotient by 1.1 / 0.9 lies a rounding error away from a whole millisecond.
+COINCIDE_RATES = [1.1, 0.9, 1.5, 4.0 / 3.0]
+COINCIDE_PREVIEWS = [7.0, 66.0, 66000.0]
+COINCIDE_TIMES = [float(t) for t in range(1, 100, 2)] + [66.0, 198.0, 343.0, 1000.0, 66000.0, 123453.0]
+
+
+def check_coincide(r, p, ctx):
+    from reamber.osu.OsuSample import OsuSample
+    from reamber.osu.lists.OsuSampleList import OsuSampleList
+    case = dict(probe="coincide", r=r, preview=p)
+    site = dict(game="osu", kind="coincide")
+    x = charts.make_map("osu", [(t, i % 4, None) for i, t in enumerate(COINCIDE_TIMES)], [(0.0, 120.0)], meta=dict(title="t", artist="ar", creator="cr", version="ver", audio_file_name="a.mp3", preview_time=p))
+    x.samples = OsuSampleList([OsuSample(offset=t, sample_file="s.wav", volume=40) for t in COINCIDE_TIMES])
+    ctx.transition()
+    ctx.case()
+    try:
+        y = x.rate(r)
+        hits, smp, pre = y.hits.offset.tolist(), y.samples.offset.tolist(), float(y.preview_time)
+    except Exception as e:
+        ctx.check("raises", False, site=dict(site, exc=type(e).__name__), case=case, observed=f"{type(e).__name__}: {e}"[:300], expected="a rated chart")
+        return
+    ctx.state(("coincide", r, p), nontrivial=True)
+    k = COINCIDE_TIMES.index(p)
+    bad = [(t, h, s) for t, h, s in zip(COINCIDE_TIMES, hits, smp) if h != s]
+    ctx.check("coincide.memory", len(hits) == len(smp) == len(COINCIDE_TIMES) and not bad and pre == hits[k], site=site, case=case, observed=dict(differ=bad[:4], preview=pre, hit_at_preview=hits[k] if len(hits) > k else None), expected="hit, sample event and preview point of one source time share one rated time")
+    ctx.transition(2)
+    try:
+        back = fileio.write_read("osu", y)
+        bh, bs, bp = sorted(back.hits.offset.tolist()), sorted(back.samples.offset.tolist()), float(back.preview_time)
+    except Exception as e:
+        ctx.check("file.roundtrip_raises", False, site=dict(site, exc=type(e).__name__), case=case, observed=f"{type(e).__name__}: {e}"[:300], expected="written and read back")
+        return
+    bad = [(h, s) for h, s in zip(bh, bs) if h != s]
+    ctx.check("coincide.file", len(bh) == len(bs) == len(COINCIDE_TIMES) and not bad and bp in bh, site=site, case=case, observed=dict(differ=bad[:4], preview=bp), expected="after write and read the sample events and the preview point are still at the times of their hits")
 
 
 def replay(case, ctx):
+    if case.get("probe") == "coincide":
+        return check_coincide(case["r"], case["preview"], ctx)
     check_rate(case["kind"], case["game"], case["start"], case["pre"], case["r"], case.get("r2"), ctx)
 
 
